@@ -171,30 +171,35 @@ def random_case(rng, maxlen=40, legal=True, wf=False):
     return fmt(mc, ms, ops)
 
 
-def all_cases(rng, maxlen=8, n_random=6000):
-    """(name, cases) parts"""
+def all_cases(rng, tier="quick"):
+    """(name, cases) parts; tier quick: legal sequences to length 7, full: to length 8"""
+    full = tier != "quick"
+    legal_len = 8 if full else 7
+    wf_len = 9 if full else 8
+    any_len = 5 if full else 4
+    n_random = 40000 if full else 6000
     legal = []
     for mc in CAPS:
         for ms in SIZES:
-            legal += exhaustive_legal(mc, ms, maxlen - 2)
+            legal += exhaustive_legal(mc, ms, legal_len)
     wf = []
     for mc in CAPS:
         for ms in SIZES:
-            wf += exhaustive_legal(mc, ms, maxlen, wf=True)
+            wf += exhaustive_legal(mc, ms, wf_len, wf=True)
     anyseq = []
     for mc in CAPS:
         for ms in SIZES:
-            anyseq += exhaustive_any(mc, ms, 4 if ms else 5)
+            anyseq += exhaustive_any(mc, ms, any_len)
     rl = [random_case(rng, 40, legal=True, wf=(i % 2 == 0)) for i in range(n_random)]
     ra = [random_case(rng, 40, legal=False) for i in range(n_random // 2)]
-    return [("exhaustive-legal", legal), ("exhaustive-codec-order", wf), ("exhaustive-any", anyseq),
-            ("random-legal", rl), ("random-any", ra)]
+    return [("exhaustive-legal<=%d" % legal_len, legal), ("exhaustive-codec-order<=%d" % wf_len, wf),
+            ("exhaustive-any<=%d" % any_len, anyseq), ("random-legal", rl), ("random-any", ra)]
 
 
 if __name__ == "__main__":
     import sys
     rng = random.Random(int(sys.argv[1]) if len(sys.argv) > 1 else 1)
-    for name, cs in all_cases(rng):
+    for name, cs in all_cases(rng, sys.argv[2] if len(sys.argv) > 2 else "quick"):
         print("# %s: %d" % (name, len(cs)), file=sys.stderr)
         for c in cs:
             print(c)
